@@ -109,7 +109,7 @@ RedrawStep(e, free0) ==
       \* is judged by its effect on the terminal alone)
       affected == IF d.delall
                     THEN {w \in DOMAIN wd : wd[w].alive /\ Tracked(Id, wd[w].style) /\ w \in DOMAIN PrevDis.w}
-                    ELSE d.delw
+                    ELSE {w \in d.delw : wd[w].alive}
       mv == IF leafy \/ topimg \/ pv.v \in {"bad-layout", "exception", "terminal-error"} THEN OK
             ELSE IF RealViews(e) # Plain(cv1) THEN V("cviews-mismatch", ToJson(Plain(cv1)), 0)
             ELSE IF HasDeleteAll(e.toks, Gfx) # d.delall
